@@ -15,6 +15,7 @@ ENGINES = [
 ]
 
 HARNESSES = {
+    'C04': [dict(name='c04_costs', src=['C04_costs.cpp'], flavour='asan')],
     'C03': [dict(name='c03_interrupt', src=['C03_interrupt.cpp'], flavour='asan', ldflags=['-rdynamic'])],
     'C01': [dict(name='c01_geometric', src=['C01_geometric.cpp'], flavour='asan')],
     'C09': [dict(name='c09_copy', src=['C09_copy.cpp'], flavour='asan')],
@@ -41,6 +42,14 @@ DBE_NOTE = ('Trusted: the choice oracle (hook H1 + sampler-allocator seam) reall
             'g++/ASan build of libompl. Bounded: deviation bound D over the first N choice points, lattice samples, the listed worlds/configurations; silent beyond.')
 
 PROPERTY_META = {
+    'C04': dict(
+        deadline_quick=420, deadline_thorough=1700, engine='E1-DBE', design_ref='5/C04',
+        technique='exhaustive enumeration of all short insertion histories into the real ProblemDefinition; deviation-bounded exploration of optimizing planners x objectives x thresholds with continued solves',
+        level_text='(a) every insertion history of <= 4 (thorough 5) solutions over 12-16 solution kinds into a real ProblemDefinition, checked after each insertion against a reference order and all '
+                   'accessor functions. (b) 17 optimizing planners (+2 non-optimizing representatives) x 5 objectives (length, state-cost integral, mechanical work, max-min clearance, weighted multi) x '
+                   'thresholds x maps, three continued solves, every execution with <= D deviations among the first N choice points: stored vs. recomputed cost, admissible bound, optimized flag, '
+                   'monotone best cost, best-first.',
+        level_note=DBE_NOTE),
     'C03': dict(
         deadline_quick=500, deadline_thorough=1700, engine='E1-DBE', design_ref='5/C03',
         technique='exhaustive enumeration of the termination index (every k up to past the first solution) x call histories on the real planners under the choice oracle; allocation-counting state space',
